@@ -104,6 +104,11 @@ def pow256_4(n):
 
 
 # ---------------------------------------------------------------------------------------------- RFC 4251 section 5 data types
+def primitive(f):
+    return f
+
+
+@primitive
 def chr8(v):
     """one byte (engine primitive when symbolic)"""
     return bytes([v % 256])
@@ -135,3 +140,46 @@ def enc_bool(v):
 def pow256_add(a, b):
     """L-POW"""
     return pow256(a + b) == pow256(a) * pow256(b) and pow256(b) >= 1
+
+
+@lemma('bytes', requires='len(w) == 2', fuel=3)
+def val_be_half(w):
+    return val_be(w) == w[0] * 256 + w[1] and val_be(w) >= 0 and val_be(w) < 65536
+
+
+@recursive('bytes;int->bytes', fuel=1)
+def rep(c, k):
+    """c repeated k times (c is one byte)"""
+    return b'' if k <= 0 else rep(c, k - 1) + c
+
+
+@recursive('str;int->str', fuel=1)
+def rep_s(c, k):
+    return '' if k <= 0 else rep_s(c, k - 1) + c
+
+
+@lemma('bytes;int', requires='len(c) == 1', induction='k', smaller='k - 1', base='k <= 0', fuel=2)
+def rep_len(c, k):
+    return len(rep(c, k)) == (k if k > 0 else 0)
+
+
+@lemma('str;int', requires='len(c) == 1', induction='k', smaller='k - 1', base='k <= 0', fuel=2)
+def rep_s_len(c, k):
+    return len(rep_s(c, k)) == (k if k > 0 else 0)
+
+
+@lemma('bytes;int', requires='len(c) == 1 and k >= 1', induction='k', smaller='k - 1', base='k <= 1', fuel=3, uses='rep_len(c, k - 1)')
+def rep_first(c, k):
+    return rep(c, k)[0] == c[0]
+
+
+@lemma('int', induction='k', smaller='k - 1', base='k <= 0', fuel=2)
+def val_be_ff(k):
+    """a run of 0xff bytes is 256^k - 1"""
+    return val_be(rep(b'\xff', k)) == pow256(k) - 1
+
+
+@lemma('int', induction='k', smaller='k - 1', base='k <= 0', fuel=2)
+def val_be_00(k):
+    """a run of zero bytes is 0"""
+    return val_be(rep(b'\x00', k)) == 0
